@@ -21,7 +21,19 @@
      `other`: router_handler.rs check_update_router_id); `t:-` while the
      connection has not sent anything.
    - `G k` prints how many ingress ids router k has been given: always 1
-     (find_existing_bmp_router under the unit's one ingress id: C14). *)
+     (find_existing_bmp_router under the unit's one ingress id: C14).
+   - Roto script (E2eModel.e_step, extracted): `F s` as first op = the start-up
+     configuration names script s; `W s [1]` = the operator edits the script
+     (0: takes roto_script out; 1..8: rib-in-pre rejects prefix 10.<s>.0.0/16;
+     9: a script without rib-in-pre); `Y y` = [units.rib2] absent / a rib / a
+     unit of another type; both take effect with the next H / L. `P af p` = the
+     query asked of rib2 (`p:-` when no rib answers there). In a case with such
+     ops every `q:` / `p:` token comes from E2eModel: a RIB unit filters with
+     the script named by the load that started it, keeps filter and store over
+     reloads, a unit started by a reload starts empty; model = RibModel under
+     the unit's filter, spec = the ideal RIB by wire identity under the same
+     filter (classes K2 / K3 as in eng_pipe). In a case without them the `q:`
+     tokens are eng_pipe's, as before (C10_no_filter_is_pipeline_model). *)
 open Conv
 open BmpModel
 open PipeModel
@@ -32,7 +44,11 @@ let n = n_of_int
 type item =
   | Skip                    (* not part of the pipe case; prints - *)
   | Pass                    (* one pipe op, one token; q: tokens are kept *)
-  | Msg of int              (* a BMP message of router k: as Pass (prints -), and the unit counters see it *)
+  | Query of string list    (* Q af p *)
+  | Query2 of string list   (* P af p: the same asked of rib2 *)
+  | Msg of int * string list (* a BMP message of router k: as Pass (prints -), and the unit counters see it *)
+  | Script of int           (* W s [1] *)
+  | Unit2 of int            (* Y y *)
   | Conn of int
   | Metrics of int          (* M k: m-token and n-token *)
   | Disc of int             (* X k of a connected router *)
@@ -51,9 +67,57 @@ let split3 (s : string) : string list * string list * string list =
 
 let starts p s = String.length s >= String.length p && String.sub s 0 (String.length p) = p
 
+(* the scripts harness/src/engines/e2e.rs writes *)
+let script_of (s : int) : script =
+  if s = 0 then SNone else if s = 9 then SNoRibFilter else SRejectPfx (Eng_pipe.pid 0 s)
+
+(* the BMP ops as operations of the pipeline model (as eng_pipe reads them) *)
+let wop_of toks : wop =
+  let i k = int_of_string (Stdlib.List.nth toks k) in
+  let t k = Stdlib.List.nth toks k in
+  let upd off = URoutes (n (i off), Eng_pipe.plist (i off) (t (off + 2)), n (i (off + 1)), n (i (off + 3)), Eng_pipe.plist (i (off + 3)) (t (off + 4))) in
+  match Stdlib.List.hd toks with
+  | "C" -> WConnect (n (i 1))
+  | "I" -> WMsg (n (i 1), MInit)
+  | "T" -> WMsg (n (i 1), MTerm)
+  | "S" -> WMsg (n (i 1), MStats (Eng_pipe.pph_of (i 2)))
+  | "U" -> WMsg (n (i 1), MPeerUp (Eng_pipe.pph_of (i 2), i 3 = 1))
+  | "D" -> WMsg (n (i 1), MPeerDown (Eng_pipe.pph_of (i 2)))
+  | "R" -> WMsg (n (i 1), MRoute (Eng_pipe.pph_of (i 2), Some (upd 3)))
+  | "E" -> WMsg (n (i 1), MRoute (Eng_pipe.pph_of (i 2), Some (UEor (n (i 3)))))
+  | "B" -> WMsg (n (i 1), MRoute (Eng_pipe.pph_of (i 2), None))
+  | "X" -> WDisconnect (n (i 1))
+  | s -> failwith ("bad op " ^ s)
+
+(* one query of one RIB unit: model / spec / class tokens (the classification of eng_pipe: a difference is K2 when
+   the wire identity shares its ingress id, K3 when the sticky session-wide marker explains it, else unexplained) *)
+let answer tag ids (hist : RibModel.update list) (rb : RibModel.rib) (sw : sworld) af pfx =
+  let ml = Stdlib.List.sort compare (Stdlib.List.map Eng_pipe.entry_tok (expand ids (RibModel.rib_query rb af pfx))) in
+  let sl = Stdlib.List.sort compare (Stdlib.List.map Eng_pipe.entry_tok (ideal_query sw.s_rib af pfx)) in
+  let mt = tag ^ ":" ^ join "," ml and st = tag ^ ":" ^ join "," sl in
+  if mt = st then (mt, st, ".")
+  else begin
+    let wid_of_tok s = Stdlib.List.hd (String.split_on_char '=' s) in
+    let diff = Eng_pipe.uniq (Stdlib.List.map wid_of_tok
+                                (Stdlib.List.filter (fun x -> not (Stdlib.List.mem x sl)) ml
+                                 @ Stdlib.List.filter (fun x -> not (Stdlib.List.mem x ml)) sl)) in
+    let evs = RibModel.evs_of hist in
+    let k2 = ref false and k3 = ref false and unk = ref false in
+    Stdlib.List.iter (fun name ->
+        match Stdlib.List.find_opt (fun (x, _) -> Eng_pipe.wid_name x = name) ids with
+        | None -> unk := true
+        | Some (x, id) ->
+            if shares_id ids x then k2 := true
+            else if RibModel.known_c03 evs ((af, pfx), id) || RibModel.known_c03 evs ((BinNat.N.add af (n 2), pfx), id) then k3 := true
+            else unk := true) diff;
+    (mt, st, if !unk then "?" else (if !k2 then "K2" else "") ^ (if !k3 then "K3" else ""))
+  end
+
 let run_case (line : string) : string =
   let ops = Stdlib.List.map words (split_on ';' line) in
   let ops = Stdlib.List.filter (fun o -> o <> []) ops in
+  let scripted = Stdlib.List.exists (fun o -> Stdlib.List.mem (Stdlib.List.hd o) ["F"; "W"; "Y"; "P"]) ops in
+  let startup = match ops with ("F" :: s :: _) :: _ -> int_of_string s | _ -> 0 in
   (* pass 1: what the engine does with each op, and the case the pipeline model sees *)
   let live = ref [] in
   let pipe_ops = ref [] in
@@ -62,7 +126,10 @@ let run_case (line : string) : string =
       let i k = int_of_string (Stdlib.List.nth toks k) in
       let self = join " " toks in
       match Stdlib.List.hd toks with
-      | "O" | "A" | "Z" -> Skip
+      | "O" | "A" | "Z" | "F" -> Skip
+      | "W" -> Script (i 1)
+      | "Y" -> Unit2 (i 1)
+      | "P" -> Query2 toks
       | "L" | "H" -> Reload (match toks with [_; v] -> Some (int_of_string v) | _ -> None)
       | "V" -> Label (i 1)
       | "G" -> Ids (i 1)
@@ -72,8 +139,8 @@ let run_case (line : string) : string =
           if Stdlib.List.mem k !live then (live := Stdlib.List.filter (fun x -> x <> k) !live; push self; Disc k)
           else Skip
       | "M" -> push self; Metrics (i 1)
-      | "Q" -> push self; Pass
-      | "I" | "T" | "S" | "U" | "D" | "R" | "E" | "B" -> push self; Msg (i 1)
+      | "Q" -> push self; Query toks
+      | "I" | "T" | "S" | "U" | "D" | "R" | "E" | "B" -> push self; Msg (i 1, toks)
       | s -> failwith ("bad op " ^ s)) ops in
   let pipe_line = join ";" (Stdlib.List.rev !pipe_ops) in
   let (pm, ps, pc) = if pipe_line = "" then ([], [], []) else split3 (Eng_pipe.run_case pipe_line) in
@@ -90,13 +157,46 @@ let run_case (line : string) : string =
   let set k v = conn := (k, v) :: Stdlib.List.remove_assoc k !conn in
   let res = ref [] in
   let emit a b c = res := (a, b, c) :: !res in
+  (* the pipeline with its script and RIB units (E2eModel), stepped along in a case that uses them *)
+  let est = ref (e_init (script_of startup)) in
+  let hist1 : RibModel.update list ref = ref [] and hist2 : RibModel.update list ref = ref [] in
+  let estep (o : eop) =
+    if scripted then begin
+      (match o with
+       | EW wo ->
+           (match upd_of (snd (wstep !est.es_w wo)) with
+            | Some u ->
+                hist1 := !hist1 @ [filter_update !est.es_rib.ru_filter u];
+                (match !est.es_rib2 with Some r -> hist2 := !hist2 @ [filter_update r.ru_filter u] | None -> ())
+            | None -> ())
+       | _ -> ());
+      let born r = match r with Some r -> Some r.ru_born | None -> None in
+      let before = born !est.es_rib2 in
+      est := e_step false !est o;
+      if born !est.es_rib2 <> before then hist2 := []
+    end in
+  let ask tag toks (unit : (runit * sworld * RibModel.update list) option) =
+    let af = n (int_of_string (Stdlib.List.nth toks 1)) in
+    let pfx = Eng_pipe.pid (int_of_string (Stdlib.List.nth toks 1)) (int_of_string (Stdlib.List.nth toks 2)) in
+    match unit with
+    | None -> let t = tag ^ ":-" in emit t t "."
+    | Some (r, sw, hist) -> let (a, b, c) = answer tag !est.es_w.w_ids hist r.ru_rib sw af pfx in emit a b c in
   Stdlib.List.iter (fun it ->
       match it with
       | Skip -> emit "-" "-" "."
       | Pass ->
           let (a, b, c) = next () in
           if starts "q:" a then emit a b c else emit "-" "-" "."
-      | Msg k ->
+      | Query toks ->
+          let (a, b, c) = next () in
+          if scripted then ask "q" toks (Some (!est.es_rib, !est.es_s, !hist1))
+          else if starts "q:" a then emit a b c else emit "-" "-" "."
+      | Query2 toks ->
+          ask "p" toks (match !est.es_rib2, !est.es_s2 with Some r, Some sw -> Some (r, sw, !hist2) | _, _ -> None)
+      | Script s -> estep (EScript (script_of s)); emit "-" "-" "."
+      | Unit2 y -> estep (EUnit (n y)); emit "-" "-" "."
+      | Msg (k, toks) ->
+          estep (EW (wop_of toks));
           let (a, _, _) = next () in
           (match Stdlib.List.assoc_opt k !conn with
            | Some (cur, _) ->
@@ -108,15 +208,15 @@ let run_case (line : string) : string =
                set k (cur', Some cur)
            | None -> ());
           uc := uc_step !uc (WMsg (n k, MInit)); emit "-" "-" "."
-      | Conn k -> ignore (next ()); uc := uc_step !uc (WConnect (n k)); set k (!variant, None); emit "-" "-" "."
-      | Reload v -> (match v with Some v -> variant := v | None -> ()); emit "-" "-" "."
+      | Conn k -> ignore (next ()); estep (EW (WConnect (n k))); uc := uc_step !uc (WConnect (n k)); set k (!variant, None); emit "-" "-" "."
+      | Reload v -> (match v with Some v -> variant := v | None -> ()); estep EReload; emit "-" "-" "."
       | Label k ->
           (match Stdlib.List.assoc_opt k !conn with
            | None -> emit "-" "-" "."
            | Some (_, None) -> emit "t:-" "t:-" "."
            | Some (_, Some v) -> let t = Printf.sprintf "t:%d" v in emit t t ".")
       | Ids k -> if Stdlib.List.mem_assoc k !conn then emit "g:1" "g:1" "." else emit "-" "-" "."
-      | Disc k -> ignore (next ()); uc := uc_step !uc (WDisconnect (n k)); conn := Stdlib.List.remove_assoc k !conn; emit "-" "-" "."
+      | Disc k -> ignore (next ()); estep (EW (WDisconnect (n k))); uc := uc_step !uc (WDisconnect (n k)); conn := Stdlib.List.remove_assoc k !conn; emit "-" "-" "."
       | Metrics _ ->
           let (a, b, c) = next () in
           if starts "m:" a then emit a b c else emit "-" "-" ".";
